@@ -7,13 +7,12 @@ import LibfiveTheorems.C02
 #print axioms Libfive.C02.state_sound
 #print axioms Libfive.C02.leaf_enclosure
 #print axioms Libfive.C02.const_enclosure
-#print axioms Libfive.C02.sub_unsound
-#print axioms Libfive.C02.nthRoot_unsound
-#print axioms Libfive.C02.sin_cos_tan_unsound
-#print axioms Libfive.C02.mod_infinite_unsound
-#print axioms Libfive.C02.mod_flag_unsound
-#print axioms Libfive.C02.compare_unsound
-#print axioms Libfive.C02.recip_unsound
+#print axioms Libfive.C02.sub_unsound_old
+#print axioms Libfive.C02.nthRoot_unsound_old
+#print axioms Libfive.C02.sin_cos_tan_unsound_old
+#print axioms Libfive.C02.mod_flag_unsound_old
+#print axioms Libfive.C02.compare_unsound_old
+#print axioms Libfive.C02.recip_unsound_old
 #print axioms Libfive.C02.wholeOps_sound
 #print axioms Libfive.C02.wholeOps_atan2
 #print axioms Libfive.C02.wholeOps_mod
